@@ -12,6 +12,7 @@ import HvHydro2.Model.Ops
 import HvHydro2.Model.Ticks
 import HvHydro2.Model.Sliced
 import HvHydro2.Model.Atomic
+import HvHydro2.Model.SimTie
 open HvHydro2
 
 def parseInt (s : String) : Option Int := s.toInt?
@@ -210,6 +211,69 @@ def c34Run (op : String) (ticks : List String) : Option String :=
       s!"acks={showPairs (sortPairs acks)};resp={showTriples resp}"))
   | _ => none
 
+/-! ### simulator tie (`hv_hydro2_sim`): one recorded execution per line, answer `ok` / `rejected` -/
+
+def splitObs (obs : String) : List String := if obs == "~" || obs == "" then [] else obs.splitOn "|"
+
+def parseColon (s : String) : Option (String × String) :=
+  match s.splitOn ":" with
+  | [a, b] => some (a, b)
+  | _ => none
+
+def parseOptInt (s : String) : Option (Option Int) := if s == "-" then some none else (parseInt s).map some
+
+def parseEv (t : String) : Option Ev :=
+  if t == "end" then some .fin
+  else if t.startsWith "w" then (parseInt (t.drop 1).toString).map .w
+  else if t.startsWith "r" then (parseInt (t.drop 1).toString).map .r
+  else if t.startsWith "A" then (parseInt (t.drop 1).toString).map .ack
+  else if t.startsWith "R" then
+    match ((t.drop 1).toString).splitOn "=" with
+    | [i, v] => do let i ← parseInt i; let v ← parseInt v; pure (.resp i v)
+    | _ => none
+  else none
+
+def verdict (b : Bool) : String := if b then "ok" else "rejected"
+
+def simLine (ws : List String) : Option String :=
+  match ws with
+  | ["sb", xs, obs] => do
+    let xs ← parseItems xs
+    let bs ← (splitObs obs).mapM parseItems
+    pure (verdict (simBatchesOk xs bs))
+  | ["ss", xs, obs] => do
+    let xs ← parseItems xs
+    let ps ← (splitObs obs).mapM parseColon
+    let bs ← ps.mapM (fun p => parseItems p.1)
+    let cs ← ps.mapM (fun p => p.2.toNat?)
+    pure (verdict (simBatchesOk xs bs && simSnapsOk xs.length none cs))
+  | ["sc", xs, obs] => do
+    let xs ← parseItems xs
+    let ps ← (splitObs obs).mapM parseColon
+    let bs ← ps.mapM (fun p => parseItems p.1)
+    let cs ← ps.mapM (fun p => p.2.toNat?)
+    pure (verdict (simBatchesOk xs bs && simCounterOk bs cs))
+  | ["sp", xs, obs] => do
+    let xs ← parseItems xs
+    let ps ← (splitObs obs).mapM parseColon
+    let bs ← ps.mapM (fun p => parseItems p.1)
+    let cs ← ps.mapM (fun p => parseOptInt p.2)
+    pure (verdict (simBatchesOk xs bs && simPrevLastOk bs cs))
+  | ["s2", xa, xb, obs] => do
+    let xa ← parseItems xa
+    let xb ← parseItems xb
+    let ps ← (splitObs obs).mapM splitTwo
+    let ba ← ps.mapM (fun p => parseItems p.1)
+    let bb ← ps.mapM (fun p => parseItems p.2)
+    -- every scheduled slice releases something new on at least one hook
+    let fresh := (ba.zip bb).all fun p => !(p.1.isEmpty && p.2.isEmpty)
+    pure (verdict (simBatchesOk xa ba && simBatchesOk xb bb && fresh))
+  | ["sa", _script, tl] => do
+    let evs ← (tl.splitOn ",").mapM parseEv
+    pure (verdict (simAtomicOk evs))
+  | ["sim-complete"] => some "ok"
+  | _ => none
+
 structure St where
   mode : String
   op : String
@@ -232,7 +296,7 @@ def step (st : St) (line : String) : St × String :=
       | "c34" => c34Run st.op ts
       | _ => none
     (st, res.getD "bad-op")
-  | _ => (st, "bad-op")
+  | ws => (st, (simLine ws).getD "bad-op")
 
 partial def loop (h : IO.FS.Stream) (out : IO.FS.Stream) (st : St) : IO Unit := do
   let line ← h.getLine
